@@ -337,6 +337,14 @@ def _world():
         proxy = types.ModuleType('builtins'); proxy.__dict__.update(builtins.__dict__)
         proxy.max = sym.sym_max; proxy.min = sym.sym_min
         W.modeling.builtins = proxy
+        # modeling.py recognises python scalars by `type(a) is float`: let symbolic scalars pass that
+        # test (module-level `type` shadowing; everything else is the builtin)
+        def vp_type(*a):
+            if len(a) == 1:
+                if isinstance(a[0], sym.SymReal): return float
+                if isinstance(a[0], sym.SymInt): return int
+            return builtins.type(*a)
+        W.modeling.type = vp_type
         _WORLD = W
     return _WORLD
 
